@@ -31,6 +31,7 @@ func genPolicy(s *Stream, p *AttemptPlan) {
 	p.StallAfterStop = s.Chance(1, 3)
 	p.ImmediateError = s.Chance(1, 2)
 	p.LogYield = s.Chance(1, 3)
+	p.DebugYield = s.Chance(1, 6)
 }
 
 func pickStart(s *Stream, h *History, atUnitBoundary bool) Pos {
@@ -357,7 +358,7 @@ func fillFault(s *Stream, h *History, kind stopKind, at int, p *AttemptPlan) {
 		p.Stream = StreamPlan{Kind: kind, AtPacket: at, BadType: []byte{evRowsQuery, evIntVar, evRand}[s.N(3)]}
 	case stopCancel:
 		p.CancelAfter = at
-		p.CancelWhen = s.N(5)
+		p.CancelWhen = s.N(6)
 	case stopHandlerErr, stopMapperErr, stopMapperMiscount:
 		p.CallIndex = 1 + at
 		p.MiscountDelta = []int{1, -1, 2, -2, 5}[s.N(5)]
